@@ -104,6 +104,20 @@ def insertTimer (t : Timer) : List Timer → List Timer
 
 def sortTimers (l : List Timer) : List Timer := l.foldr insertTimer []
 
+/-- the earliest due time in the timer heap: what `scheduled_wakeups[0][0]` is as long as the list is only ever changed
+by `heapq.heappush` / `heapq.heappop` (pinned by `GenEngineShape.wakeupsOnlyThroughHeapq`) -/
+def minAt : List Timer → Option Int
+  | [] => none
+  | t :: ts =>
+    match minAt ts with
+    | none => some t.at_
+    | some m => some (if t.at_ ≤ m then t.at_ else m)
+
+/-- `next_wakeup_timeout(now)` as an absolute time: the instant the control loop sleeps until when nothing else
+happens (`None` = no timer: it waits for workers / the mailbox only); an overdue head gives timeout 0 -/
+def Runner.nextWakeup (r : Runner) : Option Int :=
+  (minAt r.heap).map (fun m => if m ≤ r.now then r.now else m)
+
 def hasStopResult (res : List Res) : Bool :=
   res.any (fun r => match r with | .result (some e) => e.kind == .stop | _ => false)
 
